@@ -287,6 +287,14 @@ DIRECTED = [
     ("Select(Select(Where(EventDataset(), lambda e: Count(e.jets) > 0), lambda e: First(SelectMany(e.jets, lambda j: Select(j.trks, lambda k: {'p': k.m, 'j': j})))), lambda d: d.p())", False),
     ("Select(Select(Where(EventDataset(), lambda e: Count(e.jets) > 0), lambda e: First(Where(Select(e.jets, lambda j: {'p': j.m, 'q': j.eta}), lambda r: r.q > 0))), lambda d: d.p(1) + d.q)", False),
     ("Select(Select(Where(EventDataset(), lambda e: Count(e.jets) > 0), lambda e: First(Select(e.jets, lambda j: {'pt': j.m, 'trk': First(Select(j.trks, lambda k: {'z': k.m, 'j': j}))}))), lambda d: d.trk.z() + d.pt())", False),
+    # a star somewhere INSIDE an element of the packaged display (a starred call argument, a nested display with a spread element):
+    # the display itself still has as many elements as are written
+    ("Select(Select(EventDataset(), lambda e: (e.jets, fadd(*e.vals))), lambda t: Count(t[0]))", False),
+    ("Select(Select(EventDataset(), lambda e: (e.met, [*e.a, e.b])), lambda t: t[0] + 1)", False),
+    ("Select(Select(EventDataset(), lambda e: [e.x, e.jets.Select(lambda j: fadd(*j.v, k=1))]), lambda t: t[0] * 2)", False),
+    # the early-binding idiom in a nested stage lambda: the packaged value goes through a default named like the enclosing binder
+    ("Select(Select(EventDataset(), lambda e: (e.jets, e.met)), lambda t: Select(t[0], lambda j, t=t[1]: j.pt + t))", False),
+    ("Select(Select(EventDataset(), lambda e: {'j': e.jets, 'm': e.met}), lambda t: Count(Where(t.j, lambda j, *, t=t['m']: j.pt > t)))", False),
     # stage lambdas with a defaulted parameter the operator never fills
     ("Select(Select(EventDataset(), lambda e, scale=2, /: (e.jets, e.met * scale)), lambda t: Count(t[0]) + t[1])", False),
     ("Select(Select(EventDataset(), lambda e, /, scale=2: {'j': e.jets, 'm': e.met * scale}), lambda t, *, k=1: Count(t.j) + t.m + k)", False),
